@@ -192,21 +192,26 @@ theorem mem_names_addConnectionRaw (c : ConnSet) (pr : Proto) (ps : PortSet) (pr
 
 theorem names_addConnection_sub (c : ConnSet) (pr : Proto) (ps : PortSet) (pr' : Proto)
     (n : String) (h : n ∈ (c.addConnection pr ps).names pr') :
-    n ∈ c.names pr' ∨ (pr' = pr ∧ n ∈ ps.named) :=
-  (mem_names_addConnectionRaw c pr ps pr' n).mp (names_checkIfAll_sub _ _ _ h)
+    n ∈ c.names pr' ∨ (pr' = pr ∧ n ∈ ps.named) := by
+  cases ha : c.allowAll
+  · rw [addConnection_of_not_allowAll ha] at h
+    exact (mem_names_addConnectionRaw c pr ps pr' n).mp (names_checkIfAll_sub _ _ _ h)
+  · rw [addConnection_of_allowAll ha] at h
+    exact Or.inl h
 
 theorem names_addConnection_sup (c : ConnSet) (pr : Proto) (ps : PortSet) (pr' : Proto)
     (n : String) (h : n ∈ c.names pr' ∨ (pr' = pr ∧ n ∈ ps.named)) :
-    n ∈ (c.addConnection pr ps).names pr' ∨ (c.addConnection pr ps).allowAll = true :=
-  names_checkIfAll_sup _ _ _ ((mem_names_addConnectionRaw c pr ps pr' n).mpr h)
+    n ∈ (c.addConnection pr ps).names pr' ∨ (c.addConnection pr ps).allowAll = true := by
+  cases ha : c.allowAll
+  · rw [addConnection_of_not_allowAll ha]
+    exact names_checkIfAll_sup _ _ _ ((mem_names_addConnectionRaw c pr ps pr' n).mpr h)
+  · rw [addConnection_of_allowAll ha]
+    exact Or.inr ha
 
 theorem allowAll_addConnection_of (c : ConnSet) (pr : Proto) (ps : PortSet)
     (h : c.allowAll = true) : (c.addConnection pr ps).allowAll = true := by
-  apply allowAll_checkIfAll_of
-  unfold addConnectionRaw
-  split
-  · exact h
-  · split <;> simpa using h
+  rw [addConnection_of_allowAll h]
+  exact h
 
 /-! ### sets without named and excluded ports -/
 
@@ -234,6 +239,9 @@ theorem PortSet.plain_union {p o : PortSet} (hp : p.named = [] ∧ p.excluded = 
 
 theorem plain_addConnection {c : ConnSet} (hc : Plain c) (pr : Proto) {ps : PortSet}
     (hps : ps.named = [] ∧ ps.excluded = []) : Plain (c.addConnection pr ps) := by
+  cases ha : c.allowAll
+  case true => rw [addConnection_of_allowAll ha]; exact hc
+  rw [addConnection_of_not_allowAll ha]
   apply plain_checkIfAll
   unfold addConnectionRaw
   split
